@@ -1,4 +1,5 @@
-From SV Require Import Base.ListX Store.Masked World.Env World.Join World.JoinProps World.CsProps.
+From SV Require Import Base.ListX Store.Masked World.Env World.Join World.JoinProps World.CsProps World.JoinAbs
+  World.JoinRefine World.JoinAbsProps World.JoinSafe.
 From Coq Require Import Sorting.Sorted.
 From SV Require Import Props.C16.
 Check (C16_accumulates_in_arrival_order : forall l m i,
@@ -28,3 +29,16 @@ Check (C16_item_is_the_accumulated_amount : forall av hs excl eids k mode d i e 
   (mode = 0 -> fst (m_get av hs excl eids (MChange k mode d) i e) = e)).
 Check (C16_consumed_by_value : forall ms k e, (exists m, In m ms /\ m_taken m = Some k) ->
   cs_get (consume_cs ms e) k = NM.empty Z).
+Check (C16_each_amount_paired_once_with_its_entity : forall unit av hs excl eids pre post k mode d keys S, NoDup keys ->
+  forallb (fun m => negb (m_cs_owns m k)) pre = true ->
+  forall j xs, In (j, xs) (snd (a_visit_keys unit av hs excl eids (pre ++ MChange k mode d :: post) keys S)) ->
+  nth_error xs (length pre) = Some (JAmt (match cscell S k j with Some a => a | None => 0%Z end))).
+Check (C16_change_set_after_a_join : forall unit av hs excl eids pre post k mode d keys S j, NoDup keys ->
+  forallb (fun m => negb (m_cs_owns m k)) pre = true -> forallb (fun m => negb (m_cs_owns m k)) post = true ->
+  cscell (fst (a_visit_keys unit av hs excl eids (pre ++ MChange k mode d :: post) keys S)) k j =
+    if in_dec N.eq_dec j keys
+    then (if N.eqb mode 1 then option_map (fun a => amt_add a d) (cscell S k j) else if N.eqb mode 2 then None else cscell S k j)
+    else cscell S k j).
+Check (C16_join_refines_the_join_on_maps : forall unit av hs excl eids ms keys e S, absrel unit e S ->
+  snd (visit_keys av hs excl eids ms keys e) = snd (a_visit_keys unit av hs excl eids ms keys S) /\
+  absrel unit (fst (visit_keys av hs excl eids ms keys e)) (fst (a_visit_keys unit av hs excl eids ms keys S))).
